@@ -6,8 +6,8 @@ CONSTANTS
   TTL = 5
   Validity = 2
   MaxClock = 6
-  Margin = 1
-  NoReverify = TRUE
+  Margin = 0
+  NoReverify = FALSE
   KeyIgnoresName = FALSE
 INVARIANTS ServedValid CacheHoldsOwnName CapacityRespected
 VIEW VIEW_
